@@ -14,6 +14,26 @@ BASELINE_OFF = (
 
 # id -> (level, technique, level text, level note, design ref)
 T = {
+    "C10": (
+        "model_checking",
+        "explicit-state BFS over live (correction, input) pairs with full-content hashing, every transition a real correction call compared with a never-used correction applied to a private raw copy",
+        "56 correction configurations (type, rotation 2-D/3-D, translation, curvature, drift, colour, illumination, affine and generalised-perspective "
+        "transformation corrections) x input kinds {array, scalar/vector/optical image, series} x dtypes x shapes are roots; from each the search applies "
+        "overwrite in {False, True} repeatedly (de-duplicated BFS to depth 3, thorough 5, plus all un-deduplicated sequences of length <= 2) and checks on every "
+        "transition: input untouched / same object, result class, pixels equal to the reference correction on the raw array, metadata = input + declared updates, "
+        "series == per-slice application, neutral parameters leave values unchanged; plus composition through Image(arr, transformations=[...]).",
+        "Trusted: mc.canon.digest; the differential reference (fresh correction of the same configuration); explicit index-shift models where unambiguous. OpenCV RNG re-seeded identically before call and reference.",
+        "DESIGN.md §3 C10",
+    ),
+    "C11": (
+        "exploration",
+        "exhaustive enumeration of image shapes x targets x payloads with complete impulse bases through the real resampling/reduction routines, NumPy accumulation-loop reference",
+        "Every 2-D shape with extents up to the bound (odd extents included) x dtype x payload x every admissible resize target / refinement level -3..3 / "
+        "extrusion / axis (by index and by Cartesian name) x {sum, average}, and superposition of 1..4 images on a shared grid and at every tuple of voxel-aligned "
+        "offsets, each on the complete impulse basis plus linear combinations (linear maps: decides all data of that shape).",
+        "Trusted: NumPy reference loops in props/c11.py. Conservative resize is judged on the array sum per channel (what the code documents and test_emd_2d_resize relies on), tolerance 1e-5 (OpenCV float32 weights).",
+        "DESIGN.md §3 C11",
+    ),
     "C05": (
         "exploration",
         "exhaustive enumeration of explicit mass/grid/option alphabets on the real solvers; independent unique-flux cost on thin grids; certified lower bound (Kelley cutting planes over the cycle space) for the discrete minimum",
